@@ -240,6 +240,8 @@
 //     a ':' in a generated parameter name is dropped instead of becoming '_';
 //     under "refs" a slice of translatable elements is a `List`, `len(s)` its
 //     length, `s[i]` is `none` (panic) unless 0 ≤ i < len(s), nil slice = [];
+//   - `xs == nil` / `xs != nil` on a list is `xs.isEmpty` / its negation: a nil
+//     slice is the empty list, a non-nil empty slice is not told apart from it;
 //   - inside a range loop a clause of a type switch over a symbolic interface
 //     value may `continue` the loop (`break` there would leave the switch only
 //     and stays outside the subset);
@@ -1473,6 +1475,11 @@ func (c *fctx) binary(x *ast.BinaryExpr) ex {
 			m := "isNone"
 			if x.Op == token.NEQ {
 				m = "isSome"
+			}
+			if strings.HasPrefix(c.t.leanType(tx), "(List") {
+				// lists have no nil: a nil slice is the empty list (a non-nil empty slice is not told apart)
+				m = map[bool]string{false: "isEmpty", true: "isEmpty.not"}[x.Op == token.NEQ]
+				return c.bindN([]ex{a}, func(s []string) string { return "(" + s[0] + ")." + m })
 			}
 			if c.t.leanType(tx) == "" || !(isError(tx) || isPtrStruct(tx) || strings.HasPrefix(c.t.leanType(tx), "(Option")) {
 				fail("nil comparison of %s", c.show(x.X))
